@@ -36,6 +36,7 @@ package mint
 //@ macro okproof(m, p) = len(p.Secret) <= 512 && (p.Id in m.keysets) && (p.Amount in m.keysets[p.Id].Keys) && hexok(p.C) && pt.parseok(hexdec(p.C)) && pt.parse(hexdec(p.C)) == smul(sc.of(m.keysets[p.Id].Keys[p.Amount].PrivateKey.Key), h2c(bytesOf(p.Secret))) && (nut10.ok(p.Secret) && nut10.parse(p.Secret).Kind == nut10.P2PK ==> (exists t :: p2pk.verdict(p, nut10.parse(p.Secret), t) == nil)) && (nut10.ok(p.Secret) && nut10.parse(p.Secret).Kind == nut10.HTLC ==> (exists t :: htlc.verdict(p, nut10.parse(p.Secret), t) == nil))
 
 //@ func (*Mint).verifyProofs
+//@   ensures @cashuerr [C20] err != nil ==> iscashu(err) && !lnerr(err)
 //@   tags C01 C04 C12 C13
 //@   safety C06
 //@   requires minv(m)
@@ -52,6 +53,7 @@ package mint
 // GenerateDLEQ makes for it (some nonce p): what a wallet will check (C10).
 //@ macro signedby(sig, bm, k) = hexok(bm.B_) && sig.C_ == hexenc(pt.ser(smul(k, pt.parse(hexdec(bm.B_))))) && sig.DLEQ != nil && (exists p Sc :: sig.DLEQ.E == hexenc(sc.ser(sc.frombytes(hashe4(smul(p, pt.G), smul(p, pt.parse(hexdec(bm.B_))), smul(k, pt.G), smul(k, pt.parse(hexdec(bm.B_))))))) && sig.DLEQ.S == hexenc(sc.ser(sadd(p, smulS(sc.frombytes(hashe4(smul(p, pt.G), smul(p, pt.parse(hexdec(bm.B_))), smul(k, pt.G), smul(k, pt.parse(hexdec(bm.B_))))), k)))))
 //@ func (*Mint).signBlindedMessages
+//@   ensures @cashuerr [C20] err != nil ==> iscashu(err) && !internalerr(err)
 //@   tags C02 C09 C10
 //@   safety C06
 //@   requires minv(m)
@@ -63,6 +65,8 @@ package mint
 //@   loop range(blindedMessages) invariant 0 <= i && i <= len(blindedMessages) && len(blindedSignatures) == len(blindedMessages) && sum.sig.amount(seq(blindedSignatures), i) == sum.bm.amount(seq(blindedMessages), i) && (forall j :: 0 <= j && j < i ==> blindedSignatures[j].Amount == blindedMessages[j].Amount && blindedSignatures[j].Id == m.activeKeyset.Id && blindedMessages[j].Id == m.activeKeyset.Id && blindedSignatures[j].DLEQ != nil && (blindedMessages[j].Amount in m.activeKeyset.Keys) && signedby(blindedSignatures[j], blindedMessages[j], sc.of(m.activeKeyset.Keys[blindedMessages[j].Amount].PrivateKey.Key)))
 
 //@ func (*Mint).Swap
+//@   records api.err api.calls
+//@   ensures @cashuerr [C20] err != nil ==> iscashu(err) && !lnerr(err)
 //@   tags C01 C02 C06 C15 C12 C07
 //@   safety C06
 //@   requires minv(m)
@@ -86,6 +90,8 @@ package mint
 //@   ensures @len [C02,C15] err == nil ==> len(result) == len(blindedMessages)
 
 //@ func (*Mint).GetMintQuoteState
+//@   records api.err api.calls
+//@   ensures @cashuerr [C20] err != nil ==> iscashu(err)
 //@   tags C03
 //@   safety C06
 //@   requires minv(m)
@@ -97,6 +103,8 @@ package mint
 //@   ensures @transition [C03] db.mqrow[quoteId] == old(db.mqrow)[quoteId] || (old(db.mqrow)[quoteId].State == nut04.Unpaid && db.mqrow[quoteId] == setfield(old(db.mqrow)[quoteId], "State", nut04.Paid))
 
 //@ func (*Mint).MintTokens
+//@   records api.err api.calls
+//@   ensures @cashuerr [C20] err != nil ==> iscashu(err)
 //@   tags C03 C02 C06 C15 C07
 //@   safety C06
 //@   requires minv(m)
@@ -117,6 +125,7 @@ package mint
 //@ macro ysof(Ys, proofs) = len(Ys) == len(proofs) && (forall i :: 0 <= i && i < len(proofs) ==> Ys[i] == Yof(proofs[i].Secret))
 
 //@ func (*Mint).settleProofs
+//@   ensures @cashuerr [C20] err != nil ==> iscashu(err)
 //@   tags C01 C05
 //@   safety C06
 //@   requires minv(m)
@@ -140,6 +149,7 @@ package mint
 //@   ensures @errisfault [C06] err != nil ==> db.faults > old(db.faults)
 
 //@ func (*Mint).settleQuotesInternally
+//@   ensures @cashuerr [C20] err != nil ==> iscashu(err)
 //@   tags C02 C03 C05
 //@   safety C06
 //@   requires minv(m)
@@ -157,6 +167,8 @@ package mint
 //@ macro payfailed() = ln.payerr != nil || ln.pay.PaymentStatus == lightning.Failed
 
 //@ func (*Mint).MeltTokens
+//@   records api.err api.calls
+//@   ensures @cashuerr [C20] err != nil ==> iscashu(err)
 //@   tags C01 C02 C05 C06 C15 C07
 //@   safety C06
 //@   requires minv(m)
@@ -194,6 +206,8 @@ package mint
 //@ macro quoteproofsfree(q) = (forall y Str :: old(db.pending)[y] && old(db.pendrow)[y].MeltQuoteId == q ==> !db.pending[y] && db.spent[y] == old(db.spent)[y])
 
 //@ func (*Mint).GetMeltQuoteState
+//@   records api.err api.calls
+//@   ensures @cashuerr [C20] err != nil ==> iscashu(err)
 //@   tags C01 C05 C15
 //@   safety C06
 //@   requires minv(m)
@@ -215,6 +229,8 @@ package mint
 //@ macro truestate(ps, y) = (db.spent[y] ==> ps.State == nut07.Spent && ps.Witness == db.spentrow[y].Witness) && (!db.spent[y] && db.pending[y] ==> ps.State == nut07.Pending && ps.Witness == db.pendrow[y].Witness) && (!db.spent[y] && !db.pending[y] ==> ps.State == nut07.Unspent && ps.Witness == "")
 
 //@ func (*Mint).ProofsStateCheck
+//@   records api.err api.calls
+//@   ensures @cashuerr [C20] err != nil ==> iscashu(err)
 //@   tags C15 C01 C05
 //@   safety C06
 //@   requires minv(m)
@@ -229,6 +245,8 @@ package mint
 //@   ensures @dbinv [C01,C05] dbinv()
 
 //@ func (*Mint).RestoreSignatures
+//@   records api.err api.calls
+//@   ensures @cashuerr [C20] err != nil ==> iscashu(err)
 //@   tags C15
 //@   safety C06
 //@   requires minv(m)
@@ -254,6 +272,8 @@ package mint
 //@   ensures @errisfault [C16] err != nil ==> db.faults > old(db.faults)
 
 //@ func (*Mint).RequestMintQuote
+//@   records api.err api.calls
+//@   ensures @cashuerr [C20] err != nil ==> iscashu(err)
 //@   tags C16 C03 C02
 //@   safety C06
 //@   requires minv(m)
@@ -266,6 +286,8 @@ package mint
 //@   ensures @others [C03] forall q Str :: old(db.mq)[q] ==> db.mq[q] && db.mqrow[q] == old(db.mqrow)[q]
 
 //@ func (*Mint).RequestMeltQuote
+//@   records api.err api.calls
+//@   ensures @cashuerr [C20] err != nil ==> iscashu(err) && !lnerr(err)
 //@   tags C16 C02 C05
 //@   safety C06
 //@   requires minv(m)
@@ -288,6 +310,7 @@ package mint
 //@   ensures @errnil err != nil ==> result == nil
 
 //@ func (Mint).RetrieveMintInfo
+//@   records api.err api.calls
 //@   tags C16
 //@   safety C06
 //@   requires minv(m)
@@ -306,6 +329,7 @@ package mint
 // the same threshold, and every output is signed (and, for HTLC, carries the
 // preimage). Signature counting is HasValidSignatures (ghost counters hvs.*).
 //@ func verifyBlindedMessages
+//@   ensures @cashuerr [C20] err != nil ==> iscashu(err) && !internalerr(err)
 //@   tags C12 C13
 //@   safety C06 C12
 //@   requires len(proofs) >= 1
@@ -335,3 +359,203 @@ package mint
 //@   ensures @kinv [C09] err == nil && !(old(m.keysets[m.activeKeyset.Id].Id) == m.activeKeyset.Id) ==> kinv(m)
 //@   ensures @newactive [C09] err == nil ==> m.activeKeyset.InputFeePpk == fee && m.activeKeyset.DerivationPathIdx == (old(m.activeKeyset.DerivationPathIdx) + 1) % 4294967296 && r0 != nil && r0.Id == m.activeKeyset.Id && r0.InputFeePpk == fee && r0.Active
 //@   ensures @oldkept [C09] forall id Str :: old(id in m.keysets) && id != m.activeKeyset.Id ==> (id in m.keysets) && m.keysets[id].Keys == old(m.keysets[id].Keys) && m.keysets[id].InputFeePpk == old(m.keysets[id].InputFeePpk) && m.keysets[id].Id == old(m.keysets[id].Id)
+
+// ---- HTTP surface (C20). One handler call = one exchange: http.status/http.body
+// are the ghost status line and body of the ResponseWriter (net/http answers
+// 200 when the handler writes without WriteHeader).
+// the store invariants every mint operation preserves are part of the server's state invariant
+//@ macro srvok(ms) = ms.mint != nil && ms.cache != nil && ms.cache.items != nil && minv(ms.mint) && dbinv() && mppinv() && totalsinv()
+//@ macro reqok(req) = req != nil && req.URL != nil && req.Body != nil
+// NUT-19 cache key: method + URL + body bytes
+//@ macro ckey(req, body) = req.Method + url.str(req.URL) + strOf(body)
+
+//@ func (*Cache).Get
+//@   tags C20
+//@   safety C06 C20
+//@   requires c.items != nil
+//@   modifies *c
+//@   ensures @sameref [C20] c.items == old(c.items)
+//@   ensures @hit [C20] r1 <==> old(key in c.items)
+//@   ensures @shrink [C20] forall k Str :: (k in c.items) ==> old(k in c.items) && c.items[k] == old(c.items[k])
+//@   ensures @value [C20] r1 ==> r0 == old(c.items[key].value)
+//@   ensures @others [C20] forall k Str :: k != key ==> ((k in c.items) <==> old(k in c.items)) && c.items[k] == old(c.items[k])
+
+//@ func (*Cache).Set
+//@   tags C20
+//@   safety C06 C20
+//@   requires c.items != nil
+//@   modifies *c
+//@   ensures @sameref [C20] c.items == old(c.items)
+//@   ensures @stored [C20] (key in c.items) ==> (old(key in c.items) && c.items[key] == old(c.items[key])) || c.items[key].value == item
+//@   ensures @nodelete [C20] old(key in c.items) ==> (key in c.items)
+//@   ensures @others [C20] forall k Str :: k != key ==> ((k in c.items) <==> old(k in c.items)) && c.items[k] == old(c.items[k])
+
+// 400 + the JSON of the error handed in (the log message may differ)
+//@ func (*MintServer).writeErr
+//@   tags C20
+//@   safety C06 C20
+//@   requires ms.mint != nil && ms.mint.logger != nil && req != nil && req.URL != nil && errResponse != nil && rw != nil
+//@   ensures @status [C20] http.status == (old(http.status) == 0 ? 400 : old(http.status))
+//@   ensures @body [C20] http.body == bcat(old(http.body), json.enc(errResponse)) || http.body == bcat(old(http.body), bempty)
+
+//@ func (*MintServer).logRequest
+//@   trusted
+//@   pure
+
+// every refusal of the decoder is a cashu error with the generic code
+//@ func decodeJsonReqBody
+//@   tags C20
+//@   safety C06 C20
+//@   requires req != nil && req.Body != nil
+//@   records dec.err dec.calls
+//@   modifies *dst
+//@   ensures @shape [C20] result != nil ==> iscashu(result) && !internalerr(result)
+
+// NUT-19: a byte-identical successful request is answered from the cache without
+// executing it again; the operation runs only on a miss; only a successful
+// answer is cached, under the key of exactly this request; refusals are 400
+// with a cashu error that never carries an internal (DB / Lightning) code.
+//@ func (*MintServer).swapRequest
+//@   tags C20
+//@   safety C06 C20
+//@   requires srvok(ms) && reqok(req) && rw != nil && http.status == 0 && http.body == bempty
+//@   calls (*Cache).Get asserts @key [C20] key == ckey(req, bytes(body))
+//@   calls (*Cache).Set asserts @key [C20] key == ckey(req, bytes(body)) && api.calls == old(api.calls) + 1 && api.err == nil
+//@   calls (*Mint).Swap asserts @miss [C20] dec.err == nil && !(ckey(req, bytes(body)) in ms.cache.items)
+//@   calls (*MintServer).writeErr asserts @generic [C20] iscashu(errResponse) && !internalerr(errResponse)
+//@   ensures @once [C20] api.calls <= old(api.calls) + 1
+//@   ensures @status [C20] http.status == 200 || http.status == 400
+//@   ensures @refused [C20] api.calls == old(api.calls) + 1 && api.err != nil ==> http.status == 400 && (forall k Str :: (k in ms.cache.items) <==> old(k in ms.cache.items))
+//@   ensures @served1 [C20] dec.calls == old(dec.calls) + 1 && dec.err == nil && old(ckey(req, io.content(req.Body)) in ms.cache.items) ==> api.calls == old(api.calls)
+//@   ensures @served2 [C20] dec.calls == old(dec.calls) + 1 && dec.err == nil && old(ckey(req, io.content(req.Body)) in ms.cache.items) ==> http.status == 200
+//@   ensures @served3 [C20] dec.calls == old(dec.calls) + 1 && dec.err == nil && old(ckey(req, io.content(req.Body)) in ms.cache.items) ==> http.body == old(bytes(ms.cache.items[ckey(req, io.content(req.Body))].value))
+//@   ensures @answered [C20] http.status == 200 && api.calls == old(api.calls) + 1 ==> api.err == nil && ((ckey(req, old(io.content(req.Body))) in ms.cache.items) && !old(ckey(req, io.content(req.Body)) in ms.cache.items) ==> bytes(ms.cache.items[ckey(req, old(io.content(req.Body)))].value) == http.body)
+
+//@ func (*Mint).GetActiveKeyset
+//@   trusted
+//@   pure
+//@ func (*Mint).ListKeysets
+//@   trusted
+//@   pure
+//@ func (*Mint).GetKeysetById
+//@   tags C20
+//@   safety C06 C20
+//@   requires minv(m)
+//@   records api.err api.calls
+//@   ensures @cashuerr [C20] r1 != nil ==> iscashu(r1) && !internalerr(r1)
+
+//@ func (*MintServer).mintRequest
+//@   tags C20
+//@   safety C06 C20
+//@   requires srvok(ms) && reqok(req) && rw != nil && http.status == 0 && http.body == bempty
+//@   calls (*MintServer).writeErr asserts @generic [C20] iscashu(errResponse) && !internalerr(errResponse)
+//@   ensures @status [C20] http.status == 200 || http.status == 400
+//@   ensures @once [C20] api.calls <= old(api.calls) + 1
+//@   ensures @refused [C20] api.calls == old(api.calls) + 1 && api.err != nil ==> http.status == 400
+//@   ensures @ok200 [C20] http.status == 200 ==> api.calls == old(api.calls) + 1 && api.err == nil
+
+//@ func (*MintServer).mintQuoteState
+//@   tags C20
+//@   safety C06 C20
+//@   requires srvok(ms) && reqok(req) && rw != nil && http.status == 0 && http.body == bempty
+//@   calls (*MintServer).writeErr asserts @generic [C20] iscashu(errResponse) && !internalerr(errResponse)
+//@   ensures @status [C20] http.status == 200 || http.status == 400
+//@   ensures @once [C20] api.calls <= old(api.calls) + 1
+//@   ensures @refused [C20] api.calls == old(api.calls) + 1 && api.err != nil ==> http.status == 400
+//@   ensures @ok200 [C20] http.status == 200 ==> api.calls == old(api.calls) + 1 && api.err == nil
+
+//@ func (*MintServer).meltQuoteRequest
+//@   tags C20
+//@   safety C06 C20
+//@   requires srvok(ms) && reqok(req) && rw != nil && http.status == 0 && http.body == bempty
+//@   calls (*MintServer).writeErr asserts @generic [C20] iscashu(errResponse) && !internalerr(errResponse)
+//@   ensures @status [C20] http.status == 200 || http.status == 400
+//@   ensures @once [C20] api.calls <= old(api.calls) + 1
+//@   ensures @refused [C20] api.calls == old(api.calls) + 1 && api.err != nil ==> http.status == 400
+//@   ensures @ok200 [C20] http.status == 200 ==> api.calls == old(api.calls) + 1 && api.err == nil
+
+//@ func (*MintServer).meltQuoteState
+//@   tags C20
+//@   safety C06 C20
+//@   requires srvok(ms) && reqok(req) && rw != nil && http.status == 0 && http.body == bempty
+//@   calls (*MintServer).writeErr asserts @generic [C20] iscashu(errResponse) && !internalerr(errResponse)
+//@   ensures @status [C20] http.status == 200 || http.status == 400
+//@   ensures @once [C20] api.calls <= old(api.calls) + 1
+//@   ensures @refused [C20] api.calls == old(api.calls) + 1 && api.err != nil ==> http.status == 400
+//@   ensures @ok200 [C20] http.status == 200 ==> api.calls == old(api.calls) + 1 && api.err == nil
+
+//@ func (*MintServer).meltTokens
+//@   tags C20
+//@   safety C06 C20
+//@   requires srvok(ms) && reqok(req) && rw != nil && http.status == 0 && http.body == bempty
+//@   calls (*MintServer).writeErr asserts @generic [C20] iscashu(errResponse) && !internalerr(errResponse)
+//@   ensures @status [C20] http.status == 200 || http.status == 400
+//@   ensures @once [C20] api.calls <= old(api.calls) + 1
+//@   ensures @refused [C20] api.calls == old(api.calls) + 1 && api.err != nil ==> http.status == 400
+//@   ensures @ok200 [C20] http.status == 200 ==> api.calls == old(api.calls) + 1 && api.err == nil
+
+//@ func (*MintServer).tokenStateCheck
+//@   tags C20
+//@   safety C06 C20
+//@   requires srvok(ms) && reqok(req) && rw != nil && http.status == 0 && http.body == bempty
+//@   calls (*MintServer).writeErr asserts @generic [C20] iscashu(errResponse) && !internalerr(errResponse)
+//@   ensures @status [C20] http.status == 200 || http.status == 400
+//@   ensures @once [C20] api.calls <= old(api.calls) + 1
+//@   ensures @refused [C20] api.calls == old(api.calls) + 1 && api.err != nil ==> http.status == 400
+//@   ensures @ok200 [C20] http.status == 200 ==> api.calls == old(api.calls) + 1 && api.err == nil
+
+//@ func (*MintServer).restoreSignatures
+//@   tags C20
+//@   safety C06 C20
+//@   requires srvok(ms) && reqok(req) && rw != nil && http.status == 0 && http.body == bempty
+//@   calls (*MintServer).writeErr asserts @generic [C20] iscashu(errResponse) && !internalerr(errResponse)
+//@   ensures @status [C20] http.status == 200 || http.status == 400
+//@   ensures @once [C20] api.calls <= old(api.calls) + 1
+//@   ensures @refused [C20] api.calls == old(api.calls) + 1 && api.err != nil ==> http.status == 400
+//@   ensures @ok200 [C20] http.status == 200 ==> api.calls == old(api.calls) + 1 && api.err == nil
+
+//@ func (*MintServer).mintInfo
+//@   tags C20
+//@   safety C06 C20
+//@   requires srvok(ms) && reqok(req) && rw != nil && http.status == 0 && http.body == bempty
+//@   calls (*MintServer).writeErr asserts @generic [C20] iscashu(errResponse) && !internalerr(errResponse)
+//@   ensures @status [C20] http.status == 200 || http.status == 400
+//@   ensures @once [C20] api.calls <= old(api.calls) + 1
+//@   ensures @refused [C20] api.calls == old(api.calls) + 1 && api.err != nil ==> http.status == 400
+//@   ensures @ok200 [C20] http.status == 200 ==> api.calls == old(api.calls) + 1 && api.err == nil
+
+//@ func (*MintServer).mintTokensRequest
+//@   tags C20
+//@   safety C06 C20
+//@   requires srvok(ms) && reqok(req) && rw != nil && http.status == 0 && http.body == bempty
+//@   calls (*Cache).Get asserts @key [C20] key == ckey(req, bytes(body))
+//@   calls (*Cache).Set asserts @key [C20] key == ckey(req, bytes(body)) && api.calls == old(api.calls) + 1 && api.err == nil
+//@   calls (*Mint).MintTokens asserts @miss [C20] dec.err == nil && !(ckey(req, bytes(body)) in ms.cache.items)
+//@   calls (*MintServer).writeErr asserts @generic [C20] iscashu(errResponse) && !internalerr(errResponse)
+//@   ensures @once [C20] api.calls <= old(api.calls) + 1
+//@   ensures @status [C20] http.status == 200 || http.status == 400
+//@   ensures @refused [C20] api.calls == old(api.calls) + 1 && api.err != nil ==> http.status == 400 && (forall k Str :: (k in ms.cache.items) <==> old(k in ms.cache.items))
+//@   ensures @served1 [C20] dec.calls == old(dec.calls) + 1 && dec.err == nil && old(ckey(req, io.content(req.Body)) in ms.cache.items) ==> api.calls == old(api.calls)
+//@   ensures @served2 [C20] dec.calls == old(dec.calls) + 1 && dec.err == nil && old(ckey(req, io.content(req.Body)) in ms.cache.items) ==> http.status == 200
+//@   ensures @served3 [C20] dec.calls == old(dec.calls) + 1 && dec.err == nil && old(ckey(req, io.content(req.Body)) in ms.cache.items) ==> http.body == old(bytes(ms.cache.items[ckey(req, io.content(req.Body))].value))
+//@   ensures @answered [C20] http.status == 200 && api.calls == old(api.calls) + 1 ==> api.err == nil && ((ckey(req, old(io.content(req.Body))) in ms.cache.items) && !old(ckey(req, io.content(req.Body)) in ms.cache.items) ==> bytes(ms.cache.items[ckey(req, old(io.content(req.Body)))].value) == http.body)
+
+//@ func (*MintServer).getKeysetById
+//@   tags C20
+//@   safety C06 C20
+//@   requires srvok(ms) && reqok(req) && rw != nil && http.status == 0 && http.body == bempty
+//@   calls (*MintServer).writeErr asserts @generic [C20] iscashu(errResponse) && !internalerr(errResponse)
+//@   ensures @status [C20] http.status == 200 || http.status == 400
+//@   ensures @refused [C20] api.calls == old(api.calls) + 1 && api.err != nil ==> http.status == 400
+
+//@ func (*MintServer).getActiveKeysets
+//@   tags C20
+//@   safety C06 C20
+//@   requires srvok(ms) && reqok(req) && rw != nil && http.status == 0 && http.body == bempty
+//@   ensures @status [C20] http.status == 200 || http.status == 400
+
+//@ func (*MintServer).getKeysetsList
+//@   tags C20
+//@   safety C06 C20
+//@   requires srvok(ms) && reqok(req) && rw != nil && http.status == 0 && http.body == bempty
+//@   ensures @status [C20] http.status == 200 || http.status == 400
